@@ -12,7 +12,7 @@ CHECKS = {
     "C01": (
         "exploration",
         "reference-model monitor: per-mode transfer functions observed on the real solver (unit impulse, halo=0) against an independent Riccati/DOP853 integration of the boundary-value problem; error law E<=2*delta at every refinement and E(4n)<=max(E(n)/2.5, 0.1*delta)",
-        "Seeded random closed-form profile families x uniform/geometric/exp-mapped grids x n0 in {8,16,32} refined x4 (x16 on a subset in the thorough tier) x 6-12 cell grids, plus the arrays vertical_profiles(MOST/MOSTM/OAAHOC) produces on its own grid with the continuous counterpart rebuilt from z[0], plus a halo clause (impulse problem under an incommensurate halo vs the explicitly padded problem): 240 quick / 12000 thorough cases, ~50 resolved modes x 3 heights each; oracle self-tested per worker on constant coefficients. An error law with calibrated, frozen constants - not an asymptotic proof. Families include wind direction turning with height. All solver calls go through the monitored call path (argument-purity guard, value-preserving re-spelling of containers / memory layout chosen per case, decoy solves before 30 % of the cases, 30 % of the cases on the multi-thread kernel, finiteness of every returned field) and the shards alternate between the two kernel worlds.",
+        "Seeded random closed-form profile families x uniform/geometric/exp-mapped grids x n0 in {8,16,32} refined x4 (x16 on a subset in the thorough tier) x 6-12 cell grids, plus the arrays vertical_profiles(MOST/MOSTM/OAAHOC) produces on its own grid with the continuous counterpart rebuilt from z[0], plus a halo clause (impulse problem under an incommensurate halo vs the explicitly padded problem): 240 quick / 8000 thorough cases (a third with the cell size tuned so that the compared components reach shooting growth 13-18, an eighth on regional domains), ~50 resolved modes x 3 heights each; oracle self-tested per worker on constant coefficients. An error law with calibrated, frozen constants - not an asymptotic proof. Families include wind direction turning with height. All solver calls go through the monitored call path (argument-purity guard, value-preserving re-spelling of containers / memory layout chosen per case, decoy solves before 30 % of the cases, 30 % of the cases on the multi-thread kernel, finiteness of every returned field) and the shards alternate between the two kernel worlds.",
         "Trusted: SciPy DOP853 at rtol 1e-11; the calibrated constants C=2, 2.5, 0.1 (observed worst 0.69 and ratio 3.7 on the repaired tree).",
         "DESIGN.md section 4, C01",
     ),
